@@ -8,9 +8,10 @@
    static reorderTriples and the run-time sort), commutativity of UNION, and the
    trivial half (one algebra evaluated repeatedly gives one answer - a pure model
    cannot exhibit state leaking between evaluations; that half of the property
-   is covered by conformance runs only).  NOT proved: commutativity of join on
-   the model (it fails: findings F-C04-3, F-C04-4 are asymmetric), invariance
-   under renaming. *)
+   is covered by conformance runs only), commutativity of Join in the
+   specification, and in the model wherever both operand orders lie in the proved
+   C04 fragment (in general it fails on the model: findings F-C04-3, F-C04-4 are
+   asymmetric).  NOT proved: invariance under renaming, initBindings = VALUES. *)
 From RV Require Import Sparql.VariantProofs.
 
 Theorem C15_bgp_perm : forall ds g ts ts',
@@ -33,6 +34,19 @@ Theorem C15_union_comm_model : forall ds g c p1 p2,
   Permutation (eval_td ds g c (Union p1 p2)) (eval_td ds g c (Union p2 p1)).
 Proof. exact td_union_comm. Qed.
 Print Assumptions C15_union_comm_model.
+
+Theorem C15_join_comm : forall ds g l l' a b, shape a = true -> shape b = true ->
+  Permutation (eval_bu ds g (Join l a b)) (eval_bu ds g (Join l' b a)).
+Proof. exact bu_join_comm. Qed.
+Print Assumptions C15_join_comm.
+
+Theorem C15_join_comm_model_partial : forall ds, graphs_nodup ds -> forall pushed l l' a b g c,
+  frag (map fst (ds_named ds)) pushed (Join l a b) = true ->
+  frag (map fst (ds_named ds)) pushed (Join l' b a) = true ->
+  NoDup g -> sol_wf c = true -> dom_in c pushed ->
+  Permutation (eval_td ds g c (Join l a b)) (eval_td ds g c (Join l' b a)).
+Proof. exact td_join_comm. Qed.
+Print Assumptions C15_join_comm_model_partial.
 
 Theorem C15_spec_reading : forall c o,
   spec_ok15 c o = true <-> (length o = length c /\ forall l, In l o -> group_ok l = true).
